@@ -3,7 +3,7 @@
 #include "inputs.h"
 #include <stdio.h>
 #include <string.h>
-static var scan(var type, const char* cls) {
+static var cv_scan(var type, const char* cls) {
   struct Type* t = (struct Type*)type + 2 + (CELLO_CACHE_NUM / 3);
   while (t->name) { if (strcmp(t->name, cls) == 0) return t->inst; t++; }
   return NULL;
@@ -15,7 +15,7 @@ int main(int argc, char** argv) {
   for (int round = 0; round < 2; round++)
   for (size_t i = 0; i < sizeof(types)/sizeof(var); i++)
   for (size_t j = 0; j < sizeof(classes)/sizeof(var); j++) {
-    var want = scan(types[i], c_str(classes[j]));
+    var want = cv_scan(types[i], c_str(classes[j]));
     var got = type_instance(types[i], classes[j]);
     if (got != want || type_implements(types[i], classes[j]) != (want != NULL)) {
       printf("REPRODUCED: type_instance(%s, %s) = %p, declared %p\n", c_str(types[i]), c_str(classes[j]), got, want); bad = 1;
